@@ -351,8 +351,10 @@ def _merge_shape(fields):
     Return the shape required to hold merged fields
     """
     rmin, rmax, cmin, cmax = boundary(fields)
-    # faster than np.any([rmin, rmax, cmin, cmax])
-    if rmin == 0 and rmax == 0 and cmin == 0 and cmax == 0:
+    # scalar (0-d) fields merge to a scalar; a one-sample array at the origin
+    # has the same extent but keeps its (1, 1) shape
+    if (rmin == 0 and rmax == 0 and cmin == 0 and cmax == 0
+            and all(f.data.ndim == 0 for f in fields)):
         return ()
     else:
         return rmax - rmin + 1, cmax - cmin + 1
@@ -364,9 +366,9 @@ def _merge_slices(fields):
     """
     rmin, rmax, cmin, cmax = boundary(fields)
     out = []
-    # faster than np.any([rmin, rmax, cmin, cmax])
-    if rmin == 0 and rmax == 0 and cmin == 0 and cmax == 0:
-        out.append(Ellipsis)
+    if (rmin == 0 and rmax == 0 and cmin == 0 and cmax == 0
+            and all(f.data.ndim == 0 for f in fields)):
+        out.extend([Ellipsis] * len(fields))
     else:
         for field in fields:
             frmin, frmax, fcmin, fcmax = field.extent
